@@ -312,7 +312,13 @@ def r_finish_pair(ctx):
                 if fct[0] == "variant" and fct[2] == "core::option::Option::Some" and is_call_to(fct[1], lambda s: s == HM + "get") and d.loops and id(d) not in seen_probe:
                     seen_probe.add(id(d))
                     gets.append((d, fct[3]))
+                # the entry API: Occupied = hit, Vacant = miss
+                if fct[0] == "variant" and is_call_to(fct[1], lambda s: s == HM + "entry") and d.loops and id(d) not in seen_probe and fct[2].startswith("std::collections::hash::map::Entry::"):
+                    seen_probe.add(id(d))
+                    gets.append((d, (fct[2].endswith("::Occupied")) == (fct[3] is True)))
             mins = [e for e in p.events if e.kind == "call" and e.d["fn"] == HM + "insert" and e.loops]
+            vins = [e for e in p.events if e.kind == "call" and e.d["fn"].startswith("std::collections::hash::map::VacantEntry::") and e.d["fn"].endswith("::insert") and e.loops]
+            mins = mins + vins
             if not pushes and not appends:
                 # zero iterations or a skipped tile: nothing may be counted or laid out
                 obs.append(Ob("R-COUNTERS", fn, "no entry ⇒ no counter moves", not incs and not mins, "increments: %d" % len(incs), rel(f["loc"])))
@@ -344,7 +350,15 @@ def r_finish_pair(ctx):
             obs.append(Ob("R-FINISH-PAIR", fn, "%s: dedup key = tile's hash (stored hash, or content hash of the fetched bytes)" % ("hit" if hit else "miss"), ok_hash and ok_tid, "key = %s" % tstr(hkey)[:100], gets[0].loc()))
             addr_inc = [e for e in incs if unmut(e.d["value"])[3] == C(1)]
             if hit:
-                ok = not appends and not mins and a[2:] == [("proj", probe, 0), ("proj", probe, 1)]
+                stored_pair = a[2:] == [("proj", probe, 0), ("proj", probe, 1)]
+                if not stored_pair and len(a) == 4 and a[2][0] == "proj" and a[3][0] == "proj" and a[2][2] == 0 and a[3][2] == 1 and unmut(a[2][1]) == unmut(a[3][1]):
+                    x_ = unmut(a[2][1])
+                    while isinstance(x_, tuple) and x_ and x_[0] == "un" and x_[1] == "*":
+                        x_ = unmut(x_[2])
+                    # `*occupied.get()` of the entry that was probed
+                    stored_pair = is_call_to(x_, lambda s: s.startswith("std::collections::hash::map::OccupiedEntry::") and s.endswith(("::get", "::get_mut", "::into_mut"))) and \
+                        any(t == probe for t in subterms(x_))
+                ok = not appends and not mins and stored_pair
                 obs.append(Ob("R-FINISH-PAIR", fn, "hit: reuses the stored (offset, length), appends nothing", ok, "entry = (%s, %s); appends: %d" % (tstr(a[2])[:60], tstr(a[3])[:60], len(appends)), pu.loc()))
                 obs.append(Ob("R-COUNTERS", fn, "hit: exactly one counter (+1) moves", len(incs) == 1 and len(addr_inc) == 1, "increments: %d" % len(incs), pu.loc()))
             else:
@@ -361,6 +375,9 @@ def r_finish_pair(ctx):
                     ok_len = isinstance(ln, tuple) and ln[0] == "cast" and unmut(ln[2]) == ("call", "len", (src,), None) and src == content
                     obs.append(Ob("R-FINISH-PAIR", fn, "miss: length = length of the appended content = the tile's bytes", ok_len, "length = %s; appended %s" % (tstr(ln)[:80], tstr(src)[:60]), pu.loc()))
                     mi = [unmut(x) for x in mins[0].d["args"]]
+                    if mins[0] in vins:
+                        # slot.insert(value) on the vacant entry of the probe: same map, same key
+                        mi = [hmap, hkey, mi[1]] if any(t == probe for t in subterms(mi[0])) else [None, None, mi[1]]
                     ok_ins = mi[0] == hmap and mi[1] == hkey and mi[2] == ("tup", (off, ln))
                     obs.append(Ob("R-FINISH-PAIR", fn, "miss: the same (offset, length) remembered under the same key in the probed map", ok_ins, "insert(%s, %s)" % (tstr(mi[1])[:60], tstr(mi[2])[:80]), mins[0].loc()))
                 v_ = unmut(p.value)
@@ -630,7 +647,8 @@ def r_hashid(ctx):
         seen = False
         for p in fa.paths:
             for fct, d in path_facts(p):
-                if fct[0] == "variant" and fct[2] == "core::option::Option::Some" and fct[3] is True and is_call_to(fct[1], lambda s: s == HM + "get") and d.loops:
+                if ((fct[0] == "variant" and fct[2] == "core::option::Option::Some" and fct[3] is True and is_call_to(fct[1], lambda s: s == HM + "get")) or
+                        (fct[0] == "variant" and fct[2] == "std::collections::hash::map::Entry::Occupied" and fct[3] is True and is_call_to(fct[1], lambda s: s == HM + "entry"))) and d.loops:
                     fetch = [e for e in p.events if e.kind == "call" and e.d["fn"] in set(x["path"] for x in lazy_fetchers(ctx))]
                     content = unmut(fetch[0].d["ret"]) if fetch else None
                     cmpd = content is not None and _bytes_compared(p, len(p.events), content)
